@@ -1,4 +1,5 @@
 import PhyModel.Proofs.PG3
+import PhyModel.Proofs.ASMC6
 /-! # C01 instance, part 4: PhyClone's conditional SMC along a fixed order satisfies
 `ASMC.ValidTo … σ.length`, hence leaves the last-level target `pOne · pdf` invariant. -/
 
@@ -92,6 +93,14 @@ theorem pg_csmc_invariant (h : Hyp dt c σ) (hκ : 0 < κ) (hL : ∀ x ∈ state
     ∑ x : St L, gT dt c σ κ σ.length x.1 * ASMC.kernel (spec dt c σ κ L hL θ m) u σ.length x y
       = gT dt c σ κ σ.length y.1 :=
   ASMC.csmc_invariant_to (spec_valid h hκ hL θ m) hu y
+
+/-- the same for the kernel with the code's schedule (`ASMC.kernelX`: with a single data point the swarm
+is resampled, if the rule fires, before the final draw) -/
+theorem pg_csmc_invariant_X (h : Hyp dt c σ) (hκ : 0 < κ) (hL : ∀ x ∈ states c σ, x ∈ L) (θ : ℚ) (m : ℕ)
+    (u : ℚ) (hu : 0 < u) (y : St L) :
+    ∑ x : St L, gT dt c σ κ σ.length x.1 * ASMC.kernelX (spec dt c σ κ L hL θ m) u σ.length x y
+      = gT dt c σ κ σ.length y.1 :=
+  ASMC.csmc_invariant_X (spec_valid h hκ hL θ m) hu y
 
 /-- the abstract incremental weight is the model's `incrWeight` (with the table probability as `q`),
 times `κ` at the first step -/
